@@ -186,6 +186,7 @@ def main():
             "add_only": True,
         },
         "engines": [
+            {"name": "rxsym", "path": "vlib/rxsym.py", "serves_properties": ["C13", "C09"], "kind_free_text": "backtracking interpreter for Python `re` patterns (parsed by re._parser) over symbolic characters with the engine's match priorities (greedy / lazy, alternatives left to right); decides where a token ends, not only whether it is in the language; validated against re.match on every path's witness"},
             {"name": "tmplsym", "path": "vlib/tmplsym.py", "serves_properties": ["C10", "C15"], "kind_free_text": "translator from the ast of concatenation-template formatter methods to z3 sequence terms"},
             {"name": "gosym", "path": "vlib/gosym.py", "serves_properties": ["C04", "C05", "C14", "C19"], "kind_free_text": "tree-walking interpreter for the Go subset of lib/go/bitproto.go and generated Go (typed values, wrap-around arithmetic as z3 bit-vectors, Go shift semantics, interface dispatch, defer); no Go toolchain exists here"},
             {"name": "llsym", "path": "vlib/llsym.py", "serves_properties": ["C03", "C04", "C05", "C06", "C07", "C12", "C14", "C15", "C16"], "kind_free_text": "symbolic interpreter for clang-14 textual LLVM IR (z3 bit-vectors, concrete pointers, bounds-checked regions, if-conversion, DART forking), x86-64 and s390x data layouts"},
